@@ -191,7 +191,7 @@ impl Future for VSleep {
 impl Timer for VExec {
     fn sleep(&self, dur: Duration) -> BoxFuture<'static, ()> {
         let now = self.lock().now;
-        Box::pin(VSleep { exec: self.clone(), deadline: now + dur.as_millis() as u64, registered: false })
+        Box::pin(VSleep { exec: self.clone(), deadline: now + dur.as_micros() as u64, registered: false })
     }
 }
 
